@@ -27,22 +27,41 @@ structure Slot where
   vidx : Nat
   deriving DecidableEq, Repr, Inhabited
 
-/-- insertion into a list sorted by `pos`, *before* the first slot whose position is `≥` -/
-def insertSorted (e : Slot) : List Slot → List Slot
+/-- how `add_node`'s sort orders two slots with the SAME position -/
+inductive TieBreak where
+  | joinOrder  -- `ring.sort_by_key(|(pos, _)| *pos)`: a stable sort by position alone — slots with equal
+               -- positions stay in push order, i.e. in the order in which their nodes JOINED (the code as it is)
+  | total      -- `ring.sort_by_key(|(pos, v)| (*pos, v.physical_node.0, v.virtual_index))`: position, then
+               -- node id, then virtual index — a total order on slots (suggested patch)
+  deriving DecidableEq, Repr, Inhabited
+
+/-- the sort key comparison `key(e) <= key(x)` -/
+def slotLe (tb : TieBreak) (e x : Slot) : Bool :=
+  match tb with
+  | .joinOrder => decide (e.pos ≤ x.pos)
+  | .total => decide (e.pos < x.pos) || (e.pos == x.pos && (decide (e.node < x.node) || (e.node == x.node && decide (e.vidx ≤ x.vidx))))
+
+/-- insertion into a sorted list, *before* the first slot whose key is `≥` -/
+def insertSorted (tb : TieBreak) (e : Slot) : List Slot → List Slot
   | [] => [e]
-  | x :: xs => if e.pos ≤ x.pos then e :: x :: xs else x :: insertSorted e xs
+  | x :: xs => if slotLe tb e x then e :: x :: xs else x :: insertSorted tb e xs
 
-/-- `ring.sort_by_key(|(pos, _)| *pos)`: a STABLE sort by position (slots with equal positions
-    keep their relative order).  A stable sort is determined by its input, so insertion sort
-    (structurally recursive: kernel-reducible) denotes the same function as Rust's merge sort. -/
-def stableSort (l : List Slot) : List Slot := l.foldr insertSorted []
+/-- `ring.sort_by_key(..)`: a STABLE sort (slots with equal keys keep their relative order).  A
+    stable sort is determined by its input, so insertion sort (structurally recursive:
+    kernel-reducible) denotes the same function as Rust's merge sort. -/
+def stableSort (tb : TieBreak) (l : List Slot) : List Slot := l.foldr (insertSorted tb) []
 
-/-- `HashRing` (without `version`) -/
+/-- the sort key of the current tree -/
+def currentTieBreak : TieBreak := .joinOrder
+
+/-- `HashRing` (without `version`); `tb` is not a field of the Rust struct: it records which sort
+    key `add_node` uses, so that the code as it is and the suggested patch are both expressible -/
 structure HashRing where
   ring : List Slot
   vnodes : Nat
   rf : Nat
   phys : List Nat
+  tb : TieBreak := currentTieBreak
   deriving DecidableEq, Repr, Inhabited
 
 /-- the virtual nodes `add_node` pushes for one physical node, in push order -/
@@ -54,13 +73,19 @@ def addNode (hashV : Nat → Nat → Nat) (r : HashRing) (node : Nat) : HashRing
   if r.phys.contains node then r
   else { r with
     phys := r.phys ++ [node]
-    ring := stableSort (r.ring ++ vnodesOf hashV node r.vnodes) }
+    ring := stableSort r.tb (r.ring ++ vnodesOf hashV node r.vnodes) }
 
-def empty (vnodes rf : Nat) : HashRing := { ring := [], vnodes := vnodes, rf := rf, phys := [] }
+def emptyTB (tb : TieBreak) (vnodes rf : Nat) : HashRing := { ring := [], vnodes := vnodes, rf := rf, phys := [], tb := tb }
+
+def empty (vnodes rf : Nat) : HashRing := emptyTB currentTieBreak vnodes rf
+
+/-- `HashRing::new(nodes, virtual_nodes_per_physical, replication_factor)` with the given sort key -/
+def newTB (tb : TieBreak) (hashV : Nat → Nat → Nat) (nodes : List Nat) (vnodes rf : Nat) : HashRing :=
+  nodes.foldl (addNode hashV) (emptyTB tb vnodes rf)
 
 /-- `HashRing::new(nodes, virtual_nodes_per_physical, replication_factor)` -/
 def new (hashV : Nat → Nat → Nat) (nodes : List Nat) (vnodes rf : Nat) : HashRing :=
-  nodes.foldl (addNode hashV) (empty vnodes rf)
+  newTB currentTieBreak hashV nodes vnodes rf
 
 /-- `HashRing::remove_node` -/
 def removeNode (r : HashRing) (node : Nat) : HashRing :=
